@@ -42,7 +42,7 @@ static std::string op_str(const Op &o) {
     case K_CLEAR: snprintf(b, sizeof b, "r%d.clear()", o.i); break;
     case K_SCALE: snprintf(b, sizeof b, "r%d=r%d*%ld", o.i, o.j, o.arg); break;
     case K_SCALEEQ: snprintf(b, sizeof b, "r%d*=%ld", o.i, o.arg); break;
-    case K_DEFCTOR: snprintf(b, sizeof b, "new r%d()", o.i); break;
+    case K_DEFCTOR: snprintf(b, sizeof b, o.arg ? "new r%d() [default constructor, F_3]" : "new r%d(p)", o.i); break;
     default: snprintf(b, sizeof b, "?");
     }
     return b;
@@ -168,14 +168,15 @@ struct FPMachine {
     std::vector<Op> ops;
     alignas(V) unsigned char storage[4][sizeof(V)];
     V *reg(int i) { return reinterpret_cast<V*>(storage[i]); }
-    std::vector<std::vector<long>> ref;     // dense values mod p
+    std::vector<std::vector<long>> ref;     // dense values mod the register's prime
+    std::vector<long> prm;                  // the prime each register carries (the real default constructor yields 3)
     std::vector<char> unspec;               // moved-from registers (see GF2Machine)
     std::string name() const { return "SpVecFP"; }
 
-    FPMachine(int R, int D, long p, const std::string &pname) : R(R), D(D), p(p), pname(pname), ref(R, std::vector<long>(D, 0)), unspec(R, 0) {
+    FPMachine(int R, int D, long p, const std::string &pname) : R(R), D(D), p(p), pname(pname), ref(R, std::vector<long>(D, 0)), prm(R, p), unspec(R, 0) {
         for (int i = 0; i < R; ++i) new (storage[i]) V(P(p));
         for (int i = 0; i < R; ++i) for (int c = 0; c < D; ++c) ops.push_back({K_UNIT, i, 0, 0, c});
-        for (int i = 0; i < R; ++i) ops.push_back({K_DEFCTOR, i, 0, 0, 0});
+        for (int i = 0; i < R; ++i) { ops.push_back({K_DEFCTOR, i, 0, 0, 0}); ops.push_back({K_DEFCTOR, i, 0, 0, 1}); }   // arg 0: V(p), arg 1: the real default constructor V()
         for (int i = 0; i < R; ++i) for (int j = 0; j < R; ++j) if (i != j) { ops.push_back({K_COPYCTOR, i, j, 0, 0}); ops.push_back({K_MOVECTOR, i, j, 0, 0}); }
         for (int i = 0; i < R; ++i) for (int j = 0; j < R; ++j) { ops.push_back({K_COPYASSIGN, i, j, 0, 0}); ops.push_back({K_MOVEASSIGN, i, j, 0, 0}); ops.push_back({K_ADDEQ, i, j, 0, 0}); }
         for (int i = 0; i < R; ++i) for (int j = 0; j < R; ++j) for (int k = 0; k < R; ++k) ops.push_back({K_ADD, i, j, k, 0});
@@ -183,67 +184,69 @@ struct FPMachine {
         for (int i = 0; i < R; ++i) ops.push_back({K_CLEAR, i, 0, 0, 0});
     }
     ~FPMachine() { for (int i = 0; i < R; ++i) reg(i)->~V(); }
-    State initial() { State s(R + 1); s[R].assign(R, {0, 0}); return s; }
+    // pseudo-register R: per real register (unspecified flag, prime)
+    State initial() { State s(R + 1); for (int i = 0; i < R; ++i) s[R].push_back({0, p}); return s; }
     static long to_long(const P &x) { return (long) x; }
-    State read() { State s(R + 1); for (int i = 0; i < R; ++i) for (auto &e : reg(i)->entries) s[i].push_back({boost::get<0>(e), to_long(boost::get<1>(e))}); for (int i = 0; i < R; ++i) s[R].push_back({(std::size_t) unspec[i], 0}); return s; }
+    State read() { State s(R + 1); for (int i = 0; i < R; ++i) for (auto &e : reg(i)->entries) s[i].push_back({boost::get<0>(e), to_long(boost::get<1>(e))}); for (int i = 0; i < R; ++i) s[R].push_back({(std::size_t) unspec[i], to_long(reg(i)->p)}); return s; }
     void restore(const State &s) {
         for (int i = 0; i < R; ++i) {
-            reg(i)->~V(); new (storage[i]) V(P(p));
+            reg(i)->~V(); new (storage[i]) V(P(s[R][i].second));
             std::fill(ref[i].begin(), ref[i].end(), 0);
-            unspec[i] = (char) s[R][i].first;
+            unspec[i] = (char) s[R][i].first; prm[i] = s[R][i].second;
             for (auto &e : s[i]) { reg(i)->entries.push_back(boost::make_tuple(e.first, P(e.second))); if (!unspec[i]) ref[i][e.first] = e.second; }
         }
     }
+    // binary operations are only defined between vectors over the same field
     bool enabled(const Op &o) const {
         switch (o.kind) {
         case K_COPYCTOR: case K_MOVECTOR: case K_COPYASSIGN: case K_MOVEASSIGN: case K_SCALE: return !unspec[o.j];
-        case K_ADD: return !unspec[o.j] && !unspec[o.k];
-        case K_ADDEQ: return !unspec[o.i] && !unspec[o.j];
+        case K_ADD: return !unspec[o.j] && !unspec[o.k] && prm[o.j] == prm[o.k];
+        case K_ADDEQ: return !unspec[o.i] && !unspec[o.j] && prm[o.i] == prm[o.j];
         case K_SCALEEQ: return !unspec[o.i];
         default: return true;
         }
     }
-    long mod(long x) const { x %= p; if (x < 0) x += p; return x; }
-    void fresh(int i) { reg(i)->~V(); new (storage[i]) V(P(p)); std::fill(ref[i].begin(), ref[i].end(), 0); unspec[i] = 0; }
+    static long modp(long x, long q) { x %= q; if (x < 0) x += q; return x; }
     void moved_from(int j) { unspec[j] = 1; std::fill(ref[j].begin(), ref[j].end(), 0); }
     void apply(const Op &o) {
         V *ri = reg(o.i);
         switch (o.kind) {
-        case K_UNIT: *ri = (std::size_t) o.arg; std::fill(ref[o.i].begin(), ref[o.i].end(), 0); ref[o.i][o.arg] = 1 % p; unspec[o.i] = 0; break;
-        case K_DEFCTOR: fresh(o.i); break;
-        case K_COPYCTOR: ri->~V(); new (storage[o.i]) V(*reg(o.j)); ref[o.i] = ref[o.j]; unspec[o.i] = 0; break;
-        case K_MOVECTOR: ri->~V(); new (storage[o.i]) V(std::move(*reg(o.j))); ref[o.i] = ref[o.j]; unspec[o.i] = 0; moved_from(o.j); break;
-        case K_COPYASSIGN: *ri = *reg(o.j); ref[o.i] = ref[o.j]; unspec[o.i] = 0; break;
-        case K_MOVEASSIGN: { std::vector<long> x = ref[o.j]; *ri = std::move(*reg(o.j)); if (o.i != o.j) moved_from(o.j); ref[o.i] = x; unspec[o.i] = 0; break; }
-        case K_ADD: { V t = *reg(o.j) + *reg(o.k); std::vector<long> x(D); for (int c = 0; c < D; ++c) x[c] = mod(ref[o.j][c] + ref[o.k][c]); *ri = t; ref[o.i] = x; unspec[o.i] = 0; break; }
-        case K_ADDEQ: { std::vector<long> x(D); for (int c = 0; c < D; ++c) x[c] = mod(ref[o.i][c] + ref[o.j][c]); *ri += *reg(o.j); ref[o.i] = x; break; }
-        case K_SCALE: { V t = *reg(o.j) * P(o.arg); std::vector<long> x(D); for (int c = 0; c < D; ++c) x[c] = mod(ref[o.j][c] * o.arg); *ri = t; ref[o.i] = x; unspec[o.i] = 0; break; }
-        case K_SCALEEQ: { std::vector<long> x(D); for (int c = 0; c < D; ++c) x[c] = mod(ref[o.i][c] * o.arg); *ri *= P(o.arg); ref[o.i] = x; break; }
-        case K_CLEAR: ri->clear(); std::fill(ref[o.i].begin(), ref[o.i].end(), 0); unspec[o.i] = 0; break;
+        case K_UNIT: *ri = (std::size_t) o.arg; std::fill(ref[o.i].begin(), ref[o.i].end(), 0); if (unspec[o.i]) prm[o.i] = to_long(ri->p); ref[o.i][o.arg] = 1 % prm[o.i]; unspec[o.i] = 0; break;
+        case K_DEFCTOR: ri->~V(); if (o.arg) { new (storage[o.i]) V(); prm[o.i] = 3; } else { new (storage[o.i]) V(P(p)); prm[o.i] = p; } std::fill(ref[o.i].begin(), ref[o.i].end(), 0); unspec[o.i] = 0; break;
+        case K_COPYCTOR: ri->~V(); new (storage[o.i]) V(*reg(o.j)); ref[o.i] = ref[o.j]; prm[o.i] = prm[o.j]; unspec[o.i] = 0; break;
+        case K_MOVECTOR: ri->~V(); new (storage[o.i]) V(std::move(*reg(o.j))); ref[o.i] = ref[o.j]; prm[o.i] = prm[o.j]; unspec[o.i] = 0; moved_from(o.j); break;
+        case K_COPYASSIGN: *ri = *reg(o.j); ref[o.i] = ref[o.j]; prm[o.i] = prm[o.j]; unspec[o.i] = 0; break;
+        case K_MOVEASSIGN: { std::vector<long> x = ref[o.j]; long q = prm[o.j]; *ri = std::move(*reg(o.j)); if (o.i != o.j) moved_from(o.j); ref[o.i] = x; prm[o.i] = q; unspec[o.i] = 0; break; }
+        case K_ADD: { long q = prm[o.j]; V t = *reg(o.j) + *reg(o.k); std::vector<long> x(D); for (int c = 0; c < D; ++c) x[c] = modp(ref[o.j][c] + ref[o.k][c], q); *ri = t; ref[o.i] = x; prm[o.i] = q; unspec[o.i] = 0; break; }
+        case K_ADDEQ: { long q = prm[o.i]; std::vector<long> x(D); for (int c = 0; c < D; ++c) x[c] = modp(ref[o.i][c] + ref[o.j][c], q); *ri += *reg(o.j); ref[o.i] = x; break; }
+        case K_SCALE: { long q = prm[o.j]; V t = *reg(o.j) * P(o.arg); std::vector<long> x(D); for (int c = 0; c < D; ++c) x[c] = modp(ref[o.j][c] * o.arg, q); *ri = t; ref[o.i] = x; prm[o.i] = q; unspec[o.i] = 0; break; }
+        case K_SCALEEQ: { long q = prm[o.i]; std::vector<long> x(D); for (int c = 0; c < D; ++c) x[c] = modp(ref[o.i][c] * o.arg, q); *ri *= P(o.arg); ref[o.i] = x; break; }
+        case K_CLEAR: ri->clear(); std::fill(ref[o.i].begin(), ref[o.i].end(), 0); if (unspec[o.i]) prm[o.i] = to_long(ri->p); unspec[o.i] = 0; break;
         }
     }
     std::string check(std::string &cls) {
         for (int i = 0; i < R; ++i) {
             if (unspec[i]) continue;
             V &v = *reg(i);
-            if (to_long(v.prime()) != p) { cls = "prime"; return "prime() of r" + std::to_string(i) + " changed"; }
+            long q = prm[i];
+            if (to_long(v.prime()) != q) { cls = "prime"; return "prime() of r" + std::to_string(i) + " is " + std::to_string(to_long(v.prime())) + ", the field it was given is F_" + std::to_string(q); }
             std::vector<long> dense(D, 0); std::size_t prev = 0; bool first = true; std::size_t cnt = 0;
             for (auto it = v.begin(); it != v.end(); ++it, ++cnt) {
                 std::size_t idx = boost::get<0>(*it); long val = to_long(boost::get<1>(*it));
                 if (!first && !(prev < idx)) { cls = "not-canonical"; return "r" + std::to_string(i) + " indices not strictly increasing"; }
                 first = false; prev = idx;
                 if (idx >= (std::size_t) D) { cls = "wrong-content"; return "r" + std::to_string(i) + " has foreign index " + std::to_string(idx); }
-                if (val < 1 || val > p - 1) { cls = "not-canonical"; return "r" + std::to_string(i) + " stores value " + std::to_string(val) + " outside 1..p-1 at index " + std::to_string(idx); }
+                if (val < 1 || val > q - 1) { cls = "not-canonical"; return "r" + std::to_string(i) + " stores value " + std::to_string(val) + " outside 1..p-1 at index " + std::to_string(idx); }
                 dense[idx] = val;
             }
-            if (dense != ref[i]) { cls = "wrong-content"; std::string a, b; for (int c = 0; c < D; ++c) { a += std::to_string(dense[c]) + " "; b += std::to_string(ref[i][c]) + " "; } return "r" + std::to_string(i) + " = [" + a + "], dense model [" + b + "]"; }
+            if (dense != ref[i]) { cls = "wrong-content"; std::string a, b; for (int c = 0; c < D; ++c) { a += std::to_string(dense[c]) + " "; b += std::to_string(ref[i][c]) + " "; } return "r" + std::to_string(i) + " = [" + a + "], dense model [" + b + "] (mod " + std::to_string(q) + ")"; }
             if (v.size() != cnt) { cls = "size"; return "size() disagrees with iteration"; }
         }
         for (int i = 0; i < R; ++i) for (int j = 0; j < R; ++j) {
-            if (unspec[i] || unspec[j]) continue;
-            long want = 0; for (int c = 0; c < D; ++c) want = mod(want + ref[i][c] * ref[j][c]);
+            if (unspec[i] || unspec[j] || prm[i] != prm[j]) continue;
+            long q = prm[i], want = 0; for (int c = 0; c < D; ++c) want = modp(want + ref[i][c] * ref[j][c], q);
             long got = to_long(*reg(i) * *reg(j));
-            if (mod(got) != want) { cls = "dot-product"; return "r" + std::to_string(i) + "*r" + std::to_string(j) + " = " + std::to_string(got) + ", expected " + std::to_string(want); }
+            if (modp(got, q) != want) { cls = "dot-product"; return "r" + std::to_string(i) + "*r" + std::to_string(j) + " = " + std::to_string(got) + ", expected " + std::to_string(want); }
         }
         return "";
     }
